@@ -647,11 +647,15 @@ def gen_entry(ctx):
         k = rng.randint(0, 4)
         c['fmt'] = rng.choice([['str', ', '.join(rng.choice(TOKENS_OK + TOKENS_BAD[:15]) for _ in range(k))], ['str', rng.choice(TOKENS_BAD)],
                                ['list', [['str', rng.choice(TOKENS_OK)] for _ in range(k)]]])
-        toks = c['fmt'][1].split(', ') if c['fmt'][0] == 'str' else [t[1] for t in c['fmt'][1]]
+        toks = [t for t in (c['fmt'][1].split(',') if c['fmt'][0] == 'str' else [t[1] for t in c['fmt'][1]]) if t.strip()]
         import re as _re
-        fam = [family_values((_re.match(r'[a-zA-Z0-9]*?(?=[:\d=]|$)', t.strip()) or [''])[0] or 'uint') for t in toks]
+        structured = any(ch in ''.join(toks) for ch in '*()<>@=')
+        fam = [] if structured else [family_values((_re.match(r'[a-zA-Z]+', t.strip()) or [''])[0] or 'uint') for t in toks]
         want = rng.choice([k, k, k + 1, max(k - 1, 0), 0])
-        c['args'] = [rng.choice(fam[j] if j < len(fam) and fam[j] else INTS_V) for j in range(want)]
+        # values whose meaning does not depend on the token they end up with (an int can be a bit count for a 'bits' token)
+        safe = [['int', 0], ['int', 1], ['int', -1], ['int', 255], ['int', 65536], ['float', 0.5], ['float', float('nan')], ['str', 'ff'], ['str', 'zz'],
+                ['bool', True], ['bits', ['Bits', '1010']], ['bytes', 'ab'], ['none']]
+        c['args'] = [rng.choice(fam[j] if j < len(fam) and fam[j] else safe) for j in range(want)]
         if rng.random() < 0.4:
             c['kw'] = {'n': ['int', rng.choice([0, 1, 8, -1, 10 ** 5])]}
     elif kind == 'Dtype':
@@ -694,7 +698,7 @@ def run(ctx):
         for c in DIRECTED_ENTRY:
             ctx.run_case(judge_entry, dict(c))
         # every public callable that exists must have been called at least once (checked via the op histogram)
-    n = ctx.scale(6000, 200000)
+    n = ctx.scale(9000, 250000)
     for i in range(n):
         c = gen_case(ctx)
         ctx.run_case(judge, c)
